@@ -174,7 +174,9 @@ class BExecutor(G.GExecutor):
         ctl = self.ctl or G.current_ctl()
         fut = BFuture()
         fut.ctl = ctl
-        name = 'w' if 'w' not in ctl.th else f'w{len(ctl.order)}'
+        name = getattr(self.run, 'wname', None) or 'w'
+        if name in ctl.th:
+            name = f'{name}{len(ctl.order)}'
 
         def body():
             if not fut.set_running_or_notify_cancel():
@@ -532,3 +534,126 @@ def run_gated(case, chooser=None):
                 consumed=list(run.consumed), outcome=run.outcome, threads_left=left,
                 pulls_on=sorted(set(str(p) for p in run.pulls_on)), stuck=ctl.stuck() if result != 'ok' else [],
                 errors=harness_exc, **fin)
+
+
+# --------------------------------------------------------------------------
+# two bridges alive at the same time
+# --------------------------------------------------------------------------
+
+def _consumer_async_multi(runs, ctl, A, taskmap):
+    """one consuming loop, one consumer task per bridge, one ticker"""
+    def body():
+        loop = BLoop(ctl)
+        loop.owner = ctl.me()
+        runs[0].loops.append(loop)
+        asyncio.set_event_loop(loop)
+        limit = max(r.tick_limit for r in runs)
+
+        async def ticker():
+            while runs[0].ticks < limit:
+                for r in runs:
+                    r.ticks += 1
+                await asyncio.sleep(TICK)
+
+        async def one(run):
+            taskmap[asyncio.current_task()] = run
+            try:
+                async for x in A.to_async_iter(run.make_source()):
+                    run.consumed.append(ident(run.values, x))
+                run.outcome = ['stop']
+            except G._Abort:
+                raise
+            except BaseException as e:
+                run.outcome = ['raised', run.exc_id(e)]
+            run.snapshot_finished(ctl)
+
+        async def main():
+            tk = loop.create_task(ticker())
+            ts = [loop.create_task(one(r)) for r in runs]
+            await asyncio.gather(*ts)
+            tk.cancel()
+            await asyncio.gather(tk, return_exceptions=True)
+        try:
+            loop.run_until_complete(main())
+        finally:
+            asyncio.set_event_loop(None)
+    return body
+
+
+def run_gated_pair(case, chooser=None):
+    """Two bridges of the same function alive at once (case['subs'] = two ordinary cases without
+    schedule); to_sync_iter: consumer threads 'c' and 'd', to_async_iter: two consumer tasks on the
+    one loop thread 'c'; workers 'w' and 'x'.  One schedule / one controller for everything.
+    Returns dict(result, trace, subs=[per-bridge observation, ...], threads_left)."""
+    import aiuti.asyncio as A
+    logging.disable(logging.CRITICAL)
+    fn = case['fn']
+    runs = [Run(dict(sc, fn=fn)) for sc in case['subs']]
+    cnames = ['c', 'd']
+    for i, r in enumerate(runs):
+        r.wname = 'wx'[i]
+    if chooser is None:
+        if case.get('sched') is not None:
+            chooser = G.schedule_chooser(list(case['sched']))
+        else:
+            import random
+            chooser = G.random_chooser(random.Random(case.get('rseed', 0)), stay=case.get('stay', 0.0))
+    lines = bool(case.get('lines'))
+    ctl = BCtl(chooser, max_steps=MAX_STEPS_LINES)
+    ctl.early_budget = int(case.get('early', EARLY_BUDGET if lines else 0))
+    if lines:
+        ctl.tracer = line_tracer(ctl, A.__file__)
+    taskmap = {}
+
+    def current_run():
+        if fn == 'a':
+            try:
+                return taskmap.get(asyncio.current_task(), runs[0])
+            except RuntimeError:
+                return runs[0]
+        me = ctl.me()
+        return runs[cnames.index(me)] if me in cnames else runs[0]
+
+    saved = (A.ThreadPoolExecutor, A.queue)
+    before = set(threading.enumerate())
+    A.ThreadPoolExecutor = lambda *a, **kw: BExecutor(*a, run=current_run(), **kw)
+    A.queue = queue_shim()
+    try:
+        if fn == 'a':
+            ctl.spawn('c', _consumer_async_multi(runs, ctl, A, taskmap))
+        else:
+            for i, r in enumerate(runs):
+                if case['subs'][i].get('wloop') == 'gv':
+                    r.wloop = BLoop(ctl)
+                    r.wloop.owner = r.wname
+                    r.loops.append(r.wloop)
+                ctl.spawn(cnames[i], _consumer_sync(r, ctl, A))
+        result = ctl.run()
+        if result != 'ok':
+            ctl.abort()
+    finally:
+        A.ThreadPoolExecutor, A.queue = saved
+        for r in runs:
+            for lp in r.loops:
+                try:
+                    if not lp.is_closed() and not lp.is_running():
+                        lp.close()
+                except Exception:
+                    pass
+    for n in ctl.order:
+        ctl.th[n]['thread'].join(2.0)
+    left = len([t for t in threading.enumerate() if t not in before and t.is_alive()])
+    names = [t for t in ctl.trace if t[0] != 'adv']
+    harness_exc = [repr(ctl.th[n]['exc'])[:200] for n in ctl.order if ctl.th[n]['exc'] is not None]
+    if harness_exc:
+        result = 'error'
+    subs = []
+    for r in runs:
+        fin = r.finished or dict(joined=False, nworkers=sum(len(p.futs) for p in r.pools), ticks=r.ticks)
+        subs.append(dict(result=result, consumed=list(r.consumed), outcome=r.outcome, joined=fin['joined'],
+                         nworkers=fin['nworkers'], threads_left=left, ticks=fin['ticks'],
+                         pulls_on=sorted(set('w' if p == r.wname else ('c' if p in cnames else str(p))
+                                             for p in r.pulls_on)),
+                         parks=[list(p) for p in r.parks]))
+    return dict(result=result, trace=[[n, op] for n, op in names], subs=subs, threads_left=left,
+                errors=harness_exc, stuck=ctl.stuck() if result not in ('ok', 'error') else [])
